@@ -577,7 +577,8 @@ def replay(ctx):
 
 def run(ctx):
     global _RECS
-    ctx.register_predicates({'C14-coloring-stale-sparsity': pred_stale_sparsity})
+    ctx.register_predicates({'C14-coloring-stale-sparsity': pred_stale_sparsity,
+                             'C14-coloring-stale-sparsity-underflow': lambda scn, info: pred_stale_sparsity(scn, info) and not scn.get('branch')})
     if getattr(ctx, 'replay', None):
         return replay(ctx)
     quick = ctx.tier == 'quick'
